@@ -1,5 +1,6 @@
 import CLModel.Proto
 import CLModel.Paths.ProjectFiles
+import CLModel.Paths.ProjectFilesM
 /-!
 Driver operations of C13.
 
@@ -15,6 +16,13 @@ Driver operations of C13.
   files of the tree in `os.walk` order; `T` is the match relation over the universe, `X` the `sub` expansions.
 
 Result: `ok|<item>;…|<lookup>;…` or `err:<exception>`.
+
+`pfm.run <locale|-> <mergebase 0|1> P <n> <config>* S <n> <path text>* U <n> <sidx>* F <k> M <n> <matcher>*`
+runs the composed model `ProjectFilesM` (Paths/ProjectFilesM.lean): the matcher table is given as TEXTS,
+* `<matcher>` = `<root text|-> <pattern text> <n> (<key> <value>)* <nw|-> (<key> <value>)*`
+  = `Matcher(pattern, env, root)` followed by `.with_env({...})` unless `-`,
+and the match relation, `sub`, `prefix`, `literal` are computed by the `Matcher` model.  Same result format;
+`unsupported:<why>` when the table leaves the class the composed model supports.
 -/
 namespace Ops.C13
 open Proto PF
@@ -136,6 +144,82 @@ def opEnv (toks : List String) : String :=
     | _, _ => "bad-args"
   | _ => "bad-args"
 
+/-! ### the composed model: pattern texts instead of match tables -/
+
+def kv : PM (List Nat × List Nat) := do let k ← text; let v ← text; pure (k, v)
+
+def optPairs : PM (Option (List (List Nat × List Nat))) := do
+  let t ← tok
+  if t == "-" then pure none
+  else do
+    let n ← (parseNat t : Option Nat)
+    let l ← many kv n
+    pure (some l)
+
+def mspec : PM PFM.MSpec := do
+  let root ← optText
+  let pat ← text
+  let env ← counted kv
+  let w ← optPairs
+  pure { pattern := pat, env := env, root := root, withEnv := w }
+
+structure CaseM where
+  locale : Option Loc
+  mergebase : Bool
+  projects : List Config
+  univ : List Path
+  nfiles : Nat
+  specs : List PFM.MSpec
+
+def caseM : PM CaseM := do
+  let loc ← optText
+  let mb ← nat
+  expect "P"; let ps ← counted config
+  expect "S"; let strs ← counted text
+  let sa := strs.toArray
+  let str : Nat → Path := fun i => match sa[i]? with | some p => p | none => missing
+  expect "U"; let u ← counted nat
+  expect "F"; let k ← nat
+  expect "M"; let ms ← counted mspec
+  pure { locale := loc, mergebase := mb == 1, projects := ps, univ := u.map str, nfiles := k, specs := ms }
+
+def showPyErr : PM.PyErr → String
+  | .keyError => "KeyError" | .missingEnv => "MissingEnvironment" | .reError => "error"
+  | .recursion => "RecursionError" | .typeError => "TypeError" | .indexError => "IndexError"
+  | .notStr => "notStr"
+
+def showMErr : PFM.MErr → String
+  | .matcher i e => s!"unsupported:matcher-{i}-{showPyErr e}"
+  | .unsupported => "unsupported:not-usable"
+  | .badId => "unsupported:bad-id"
+  | .init e => "err:" ++ showErr e
+  | .sub => "unsupported:sub-raised"
+
+def lookupsM (o : PFM.Obj) : List Path → Except PFM.MErr (List String)
+  | [] => .ok []
+  | p :: ps =>
+    match o.matchM p with
+    | .error e => .error e
+    | .ok r =>
+      match lookupsM o ps with
+      | .error e => .error e
+      | .ok rest => .ok ((match r with | some i => showItem i | none => "None") :: rest)
+
+def opRunM (toks : List String) : String :=
+  match caseM.run toks with
+  | some (c, []) =>
+    match PFM.newM c.specs c.locale c.projects c.mergebase with
+    | .error e => showMErr e
+    | .ok o =>
+      let fs : FS := { files := c.univ.take c.nfiles }
+      match o.iterM fs with
+      | .error e => showMErr e
+      | .ok items =>
+        match lookupsM o c.univ with
+        | .error e => showMErr e
+        | .ok looks => "ok|" ++ ";".intercalate (items.map showItem) ++ "|" ++ ";".intercalate looks
+  | _ => "bad-args"
+
 def ops : List (String × (List String → String)) :=
-  [("pf.run", opRun), ("pf.env", opEnv)]
+  [("pf.run", opRun), ("pf.env", opEnv), ("pfm.run", opRunM)]
 end Ops.C13
